@@ -28,7 +28,21 @@ def kind_gate_rule(fb, ctx, short, b):
     loader refuses a kind exactly when the declared version is the minimum one. A wider test refuses valid blocks (`check all` in a
     3.1 block), a narrower one admits kinds where old verifiers ignore them."""
     h = fb.hir_of(b)
-    gates = [n for n in find_all(h["body"], lambda n: n.get("k") == "if") if hirq.err_variant(n["then"]) and find_all(n["cond"], lambda z: z.get("k") == "field" and z.get("name") == "kind") and find_all(n["cond"], lambda z: z.get("k") == "mcall" and z.get("name") == "is_some")]
+    def yields_error(n):
+        """`if <gate> { Some(<error>) } ..` inside `if let Some(e) = checks.find_map(|c| ..) { return Err(e) }`: the error is produced as a
+        value and returned by the statement that consumes it"""
+        t = hirq.tail(n["then"])
+        if not ((hirq.ctor_name(t) or "").endswith("::Some") and t.get("k") == "call" and t.get("args") and "error::" in (hirq.ctor_name(strip(t["args"][0])) or "")):
+            return False
+        for outer in find_all(h["body"], lambda z: z.get("k") == "if" and isinstance(z.get("cond"), dict) and strip(z["cond"]).get("k") == "letexpr"):
+            le = strip(outer["cond"])
+            ids = {b_["id"] for b_ in find_all(le["pat"], lambda z: z.get("k") == "bind")}
+            if any((v or "").endswith("::Some") for v in hirq.pat_variants(le["pat"])) and find_all(le["init"], lambda z: z is n) and ids:
+                r_ = [x for x in find_all(outer["then"], lambda z: z.get("k") == "ret") if (hirq.ctor_name(strip(x.get("e") or {})) or "").endswith("::Err") and find_all(x, lambda y: hirq.is_lid(y, ids))]
+                if r_:
+                    return True
+        return False
+    gates = [n for n in find_all(h["body"], lambda n: n.get("k") == "if" and not (strip(n["cond"]).get("k") == "letexpr" and find_all(n["cond"], lambda z: z.get("k") == "closure"))) if (hirq.err_variant(n["then"]) or yields_error(n)) and find_all(n["cond"], lambda z: z.get("k") == "field" and z.get("name") == "kind") and find_all(n["cond"], lambda z: z.get("k") == "mcall" and z.get("name") == "is_some")]
     ok, found = False, None
     if not gates:
         # the same gate written as a guarded arm: `match c.kind { Some(_) if version < DATALOG_3_1 => return Err(..), .. }`
